@@ -244,7 +244,11 @@ class World:
                 'pkidx': {e: v for e, v in pkidx.items() if v}, 'idx': {a: v for a, v in sidx.items() if v}, 'cidx': {k: v for k, v in cidx.items() if v},
                 'modcoll': {self.aid[a]: sorted(I(o) for o in s) for a, s in cache.modified_collections.items() if s},
                 'modified': bool(cache.modified),
-                'strangers': len([o for o in cache.objects if I(o) < 0])}
+                'strangers': len([o for o in cache.objects if I(o) < 0]),
+                # a live object holds a deleted object (only possible after a deleted object was passed to a call as a value)
+                'dangling': any(o._status_ not in DEL and any((isinstance(v, core.Entity) and v._status_ in DEL) or
+                                                               (isinstance(v, core.SetData) and any(x._status_ in DEL for x in v))
+                                                               for v in (o._vals_ or {}).values()) for o in self.objs)}
 
 
 def diff_fields(before, after):
@@ -786,10 +790,11 @@ def tie_phase(ctx, batch):
                 ctx.divergence('model rejected a call the engine generated', hist, model=merr, impl=err); break
             multi = ops[i]['k'] in ('delete', 'setm', 'create') or len(ops[i].get('items', [])) > 1 or len((ops[i].get('v') or {}).get('coll', [])) > 1
             prev_snap = real[i - 1][1] if i else None
-            if err == 'AssertionError' and merr != err and prev_snap is not None and dangling(prev_snap):
-                # a deleted object was passed as a value earlier (Pony accepts it when the reverse side is a Set); flush dropped its SetData,
-                # which the model does not track for deleted objects: outside the model, the oracle has checked the call
-                ctx.count('tie:internal-assert-on-a-reference-to-a-deleted-object'); break
+            if err in ('AssertionError', 'UnrepeatableReadError') and merr != err and prev_snap is not None and (dangling(prev_snap) or prev_snap.get('dangling')):
+                # a deleted object was passed as a value earlier (Pony accepts it in places): flush dropped its SetData / wrote a foreign key
+                # to a row that does not exist or belongs to another object, so a later load disagrees with the session.
+                # Outside the model (it has no database); the before/after oracle has checked the call
+                ctx.count('tie:%s-on-a-reference-to-a-deleted-object' % err); break
             if (merr is None) != (err is None):
                 if merr in LOOSE_ERR or err in LOOSE_ERR: ctx.count('tie:cascade-cycle-outcome-differs'); break
                 if ops[i]['k'] == 'delete' and m['trail'] >= 2:
